@@ -95,3 +95,42 @@ func (v VerifEventHandlerStore) Lists(ev string) (on, once []reflect.Value) {
 	}
 	return
 }
+
+// ---- ack handlers (C03)
+
+type VerifAckHandler struct{ h *ackHandler }
+
+func VerifNewAckHandlerWithTimeout(f any, timeout time.Duration, timeoutFunc func()) (VerifAckHandler, error) {
+	h, err := newAckHandlerWithTimeout(f, timeout, timeoutFunc)
+	return VerifAckHandler{h}, err
+}
+
+func VerifNewAckHandler(f any, hasError bool) (VerifAckHandler, error) {
+	h, err := newAckHandler(f, hasError)
+	return VerifAckHandler{h}, err
+}
+
+func (a VerifAckHandler) Call(args ...any) error {
+	vals := make([]reflect.Value, len(args))
+	for i := range args {
+		vals[i] = reflect.ValueOf(args[i])
+	}
+	return a.h.call(vals...)
+}
+
+// VerifClientSocketBuffers reports the lengths of the client's offline buffers (no locking).
+func VerifClientSocketBuffers(s ClientSocket) (send, receive int) {
+	cs := s.(*clientSocket)
+	return len(cs.sendBuffer), len(cs.receiveBuffer)
+}
+
+// VerifPendingAcks reports how many ack callbacks a socket still tracks (no locking).
+func VerifPendingAcks(s Socket) int {
+	switch x := s.(type) {
+	case *clientSocket:
+		return len(x.acks)
+	case *serverSocket:
+		return len(x.acks)
+	}
+	return -1
+}
